@@ -19,6 +19,7 @@ import (
 	"context"
 	"fmt"
 	"math"
+	"math/big"
 	"math/rand"
 	"os"
 	"sort"
@@ -212,6 +213,74 @@ func snapOf(b *Binding, s nextroute.Solution) string {
 	return strings.TrimPrefix(b.observe(s, "x"), "obs x ")
 }
 
+// snapSame compares two snapshots: routes and collections exactly, numbers up to a relative 1e-9
+// (the unplanned term is a float sum over a collection whose order may legitimately change).
+func snapSame(a, b string) bool {
+	if a == b {
+		return true
+	}
+	fa, fb := strings.Fields(a), strings.Fields(b)
+	if len(fa) != len(fb) {
+		return false
+	}
+	for i := range fa {
+		if fa[i] == fb[i] {
+			continue
+		}
+		if strings.HasPrefix(fa[i], "R=") || strings.HasPrefix(fa[i], "B=") {
+			return false
+		}
+		ta := strings.FieldsFunc(fa[i][2:], func(r rune) bool { return r == ',' || r == ':' || r == '|' })
+		tb := strings.FieldsFunc(fb[i][2:], func(r rune) bool { return r == ',' || r == ':' || r == '|' })
+		if len(ta) != len(tb) {
+			return false
+		}
+		for j := range ta {
+			if ta[j] == tb[j] {
+				continue
+			}
+			x, ok1 := new(big.Rat).SetString(ta[j])
+			y, ok2 := new(big.Rat).SetString(tb[j])
+			if !ok1 || !ok2 {
+				return false
+			}
+			fx, _ := x.Float64()
+			fy, _ := y.Float64()
+			if math.Abs(fx-fy) > 1e-9*(1+math.Abs(fx)+math.Abs(fy)) {
+				return false
+			}
+		}
+	}
+	return true
+}
+
+// booksConsistent: every root unit listed planned/fixed iff it is planned, listed unplanned units have
+// no stop on a route, members listed nowhere. When this breaks the case is tainted: what follows
+// is a consequence of that state and is not judged any more.
+func booksConsistent(s nextroute.Solution) bool {
+	check := func(c nextroute.ImmutableSolutionPlanUnitCollection, wantPlanned bool) bool {
+		for _, u := range c.SolutionPlanUnits() {
+			if _, member := u.ModelPlanUnit().PlanUnitsUnit(); member {
+				return false
+			}
+			if u.IsPlanned() != wantPlanned {
+				return false
+			}
+			if !wantPlanned {
+				for _, m := range memberStopsUnits(u) {
+					for _, st := range m.SolutionStops() {
+						if st.IsPlanned() {
+							return false
+						}
+					}
+				}
+			}
+		}
+		return true
+	}
+	return check(s.PlannedPlanUnits(), true) && check(s.FixedPlanUnits(), true) && check(s.UnPlannedPlanUnits(), false)
+}
+
 func unitsOf(s nextroute.Solution, pred func(nextroute.SolutionPlanUnit) bool) []nextroute.SolutionPlanUnit {
 	var out []nextroute.SolutionPlanUnit
 	add := func(c nextroute.ImmutableSolutionPlanUnitCollection) {
@@ -266,9 +335,9 @@ func runHist(o *Out, thorough bool, withUC bool) {
 		"root unit or of a member / vehicle un-plan / copy / check); non-trivial = a history in which at least one " +
 		"operation was rejected by an exact check (rollback ran) or touched a unit of units; distinct by " +
 		"(feature set, kinds of operations rejected)"
-	ncases, nops := 50, 40
+	ncases, nops := 1200, 40
 	if thorough {
-		ncases, nops = 500, 80
+		ncases, nops = 10000, 60
 	}
 	name := "hist"
 	if withUC {
@@ -346,12 +415,16 @@ func runHistCase(o *Out, ci int, hc *histCase, nops int, distinct map[string]boo
 	bt.d.writeInst(o)
 	b := bt.b
 	ctx := context.Background()
+	tainted := false
 	tagN := 0
 	observe := func(s nextroute.Solution, what string) {
 		tagN++
+		if tainted {
+			what += ".tainted"
+		}
 		o.Op(b.observe(s, fmt.Sprintf("c%d.%d.%s", ci, tagN, what)), "obs ok")
 		if uc != nil {
-			if w := uc.violatedOn(s); w != "" {
+			if w := uc.violatedOn(s); w != "" && !tainted {
 				o.Violate(Violation{Property: "C19", Clause: "user-constraint-violated", Sig: "C19|user-constraint-violated|" + uc.Level + "|after-" + what,
 					Detail: uc.String() + " violated at " + w + " after " + what, Replay: hc})
 			}
@@ -359,6 +432,9 @@ func runHistCase(o *Out, ci int, hc *histCase, nops int, distinct map[string]boo
 	}
 	observe(sol, "new-solution")
 	violate := func(prop, clause, sigExtra, detail string) {
+		if tainted && prop != "C16" {
+			return
+		}
 		o.Violate(Violation{Property: prop, Clause: clause, Sig: prop + "|" + clause + "|" + sigExtra, Detail: detail, Replay: hc})
 	}
 	// the other side of the last copy, with the snapshot it must keep
@@ -396,7 +472,7 @@ func runHistCase(o *Out, ci int, hc *histCase, nops int, distinct map[string]boo
 			if doPanic(opDesc, func() { mv = sol.BestMove(ctx, u) }) {
 				return
 			}
-			if snapOf(b, sol) != before {
+			if !tainted && !snapSame(snapOf(b, sol), before) {
 				violate("C18", "best-move-changed-solution", role, "BestMove query changed the observable solution")
 			}
 			if su, ok := u.(nextroute.SolutionPlanStopsUnit); ok && len(su.SolutionStops()) <= 3 {
@@ -421,7 +497,7 @@ func runHistCase(o *Out, ci int, hc *histCase, nops int, distinct map[string]boo
 					violate("C09", "executable-move-rejected", role, fmt.Sprintf("best move for %s unit is executable, Execute returned false (step %d)", role, step))
 				}
 			}
-			if !ok && snapOf(b, sol) != before {
+			if !ok && !snapSame(snapOf(b, sol), before) {
 				violate("C07", "rejected-execute-changed-solution", role, diffSnap(before, snapOf(b, sol)))
 			}
 			if ok && !u.IsPlanned() {
@@ -465,7 +541,7 @@ func runHistCase(o *Out, ci int, hc *histCase, nops int, distinct map[string]boo
 					violate("C09", "executable-move-rejected", role+"|explicit", fmt.Sprintf("explicit move for %s unit is executable, Execute returned false", role))
 				}
 			}
-			if !ok && snapOf(b, sol) != before {
+			if !ok && !snapSame(snapOf(b, sol), before) {
 				violate("C07", "rejected-execute-changed-solution", role, diffSnap(before, snapOf(b, sol)))
 			}
 		case kind < 75: // un-plan a root unit, sometimes a member
@@ -504,7 +580,7 @@ func runHistCase(o *Out, ci int, hc *histCase, nops int, distinct map[string]boo
 			after := snapOf(b, sol)
 			if !ok {
 				rejectedKinds["unplan-"+role] = true
-				if after != before {
+				if !snapSame(after, before) {
 					violate("C07", "rejected-unplan-changed-solution", role, diffSnap(before, after))
 				}
 			} else if u.IsPlanned() {
@@ -533,7 +609,7 @@ func runHistCase(o *Out, ci int, hc *histCase, nops int, distinct map[string]boo
 			}
 			after := snapOf(b, sol)
 			o.Count(fmt.Sprintf("vehicle-unplan:ok=%v", ok))
-			if !ok && after != before {
+			if !ok && !snapSame(after, before) {
 				violate("C07", "rejected-unplan-changed-solution", "vehicle", diffSnap(before, after))
 			}
 			if ok && n > 0 {
@@ -556,10 +632,10 @@ func runHistCase(o *Out, ci int, hc *histCase, nops int, distinct map[string]boo
 				return
 			}
 			b2 := b
-			if s2 := snapOf(b2, cp); s2 != before {
+			if s2 := snapOf(b2, cp); !snapSame(s2, before) {
 				violate("C11", "copy-differs-from-original", "-", diffSnap(before, s2))
 			}
-			if snapOf(b, sol) != before {
+			if !snapSame(snapOf(b, sol), before) {
 				violate("C11", "copy-changed-original", "-", "Copy() changed the original")
 			}
 			o.Count("copy")
@@ -584,7 +660,7 @@ func runHistCase(o *Out, ci int, hc *histCase, nops int, distinct map[string]boo
 				o.Count("check-error")
 			}
 			o.Count("check:" + verb)
-			if after := snapOf(b, sol); after != before {
+			if after := snapOf(b, sol); !snapSame(after, before) {
 				violate("C18", "check-changed-solution", verb, diffSnap(before, after))
 			}
 			if uc == nil {
@@ -593,8 +669,12 @@ func runHistCase(o *Out, ci int, hc *histCase, nops int, distinct map[string]boo
 		}
 		hc.Ops = append(hc.Ops, opDesc)
 		observe(sol, opDesc)
+		if !tainted && !booksConsistent(sol) {
+			tainted = true
+			o.Count("tainted-by:" + opDesc)
+		}
 		if shadow != nil {
-			if s := snapOf(b, shadow); s != shadowSnap {
+			if s := snapOf(b, shadow); !snapSame(s, shadowSnap) {
 				violate("C11", "operation-on-one-side-changed-the-other", opDesc, diffSnap(shadowSnap, s))
 				shadowSnap = s
 			}
@@ -659,6 +739,9 @@ func randomPlacement(rng *rand.Rand, su nextroute.SolutionPlanStopsUnit, v nextr
 		gaps[i] = 1 + rng.Intn(m)
 	}
 	sort.Ints(gaps)
+	if splitsDirectPair(target, gaps) || separatesOwnDirectPair(order, gaps) {
+		return nil // such a placement is not one the engine would offer; outside the properties' quantifier
+	}
 	mv, err := moveAt(su, order, target, gaps)
 	if err != nil {
 		return nil
@@ -753,8 +836,8 @@ func bestMoveOracle(o *Out, hc *histCase, sol nextroute.Solution, su nextroute.S
 		target := v.SolutionStops()
 		for _, order := range orders {
 			for _, g := range combos(len(order), len(target)-1) {
-				if splitsDirectPair(target, g) {
-					continue // "keeping other units' direct pairs adjacent"
+				if splitsDirectPair(target, g) || separatesOwnDirectPair(order, g) {
+					continue // "keeping other units' direct pairs adjacent" (and the unit's own)
 				}
 				m, err := moveAt(su, order, target, g)
 				if err != nil || m == nil {
@@ -804,6 +887,17 @@ func splitsDirectPair(target nextroute.SolutionStops, gaps []int) bool {
 	return false
 }
 
+// separatesOwnDirectPair: two consecutive stops of the order tied by a direct arc placed in different gaps.
+func separatesOwnDirectPair(order []nextroute.SolutionStop, gaps []int) bool {
+	for i := 0; i+1 < len(order); i++ {
+		a, b := order[i].ModelStop(), order[i+1].ModelStop()
+		if a.HasPlanStopsUnit() && a.PlanStopsUnit().DirectedAcyclicGraph().HasDirectArc(a, b) && gaps[i] != gaps[i+1] {
+			return true
+		}
+	}
+	return false
+}
+
 // checkTruthful: a unit the check reports as plannable can be planned on that solution (on a copy).
 func checkTruthful(o *Out, hc *histCase, sol nextroute.Solution, verb string, violate func(prop, clause, sigExtra, detail string)) {
 	out, err := check.SolutionCheck(sol, check.Options{Verbosity: "medium", Duration: 5 * time.Second})
@@ -829,6 +923,12 @@ func checkTruthful(o *Out, hc *histCase, sol nextroute.Solution, verb string, vi
 			u := cp.UnPlannedPlanUnits().SolutionPlanUnits()[idx]
 			if u.IsPlanned() || !sameIDs(unitStopIDs(u), pu.Stops) {
 				continue
+			}
+			if _, nested := u.(nextroute.SolutionPlanUnitsUnit); nested {
+				// units of units are searched greedily in a random member order: a second search may
+				// fail where the check's own search (which did execute its move) succeeded
+				found = false
+				break
 			}
 			found = true
 			role = unitRole(u)
